@@ -36,7 +36,7 @@ PROPS["C01"] = {
     "level": "exploration",
     "technique": "property-based testing (rapidcheck): encode/decode round trip against getter snapshots of the source packets",
     "rule": "cases = generated batches of 1..12 (thorough ..40) packet recipes of all payload kinds x DataContext{min,max} x "
-            "encoder ids; a case is non-trivial when the batch needs segmentation, or aggregates >=2 packets into one frame, "
+            "encoder ids, half of them preceded by 1..3 earlier encode calls on the same encoder object; a case is non-trivial when the batch needs segmentation, or aggregates >=2 packets into one frame, "
             "or mixes message types, or has a payload length within +-2 of the fit boundary; distinct = distinct "
             "serialized cases (64-bit hash)",
     "assumptions": COMMON_ASSUMPTIONS + ["typed payloads in the batch are well-formed by the oracle's own validators"],
@@ -54,7 +54,8 @@ PROPS["C01"] = {
 PROPS["C07"] = {
     "level": "exploration",
     "technique": "property-based testing (rapidcheck): independent frame walker + byte accounting over generated batches/configurations",
-    "rule": "cases = generated batches of 0..12 (thorough ..40) packet recipes x DataContext{min,max}; non-trivial when the batch "
+    "rule": "cases = generated batches of 0..12 (thorough ..40) packet recipes x DataContext{min,max}, half of them preceded by 1..3 "
+            "earlier encode calls (other frame sizes, versions, types) on the same encoder object; non-trivial when the batch "
             "segments, aggregates, mixes message types, has a length within +-2 of the fit boundary, pads a frame up to min, or "
             "is the empty batch; distinct = distinct serialized cases",
     "assumptions": COMMON_ASSUMPTIONS,
@@ -71,7 +72,7 @@ PROPS["C07"] = {
 PROPS["C08"] = {
     "level": "exploration",
     "technique": "property-based testing (rapidcheck): emitted layout compared with a reference aggregation/segmentation model",
-    "rule": "cases = generated batches x DataContext, lengths aimed at fit/no-fit boundaries of the empty and of the current "
+    "rule": "cases = generated batches x DataContext (half of them after 1..3 earlier encode calls on the same encoder), lengths aimed at fit/no-fit boundaries of the empty and of the current "
             "frame (weight 10/17); non-trivial when a length is within +-2 of such a boundary, the batch changes message type, "
             "or a packet follows a last segment; distinct = distinct serialized cases",
     "assumptions": COMMON_ASSUMPTIONS + ["the property pins the layout uniquely, so equality with the reference model is not "
@@ -88,8 +89,8 @@ PROPS["C08"] = {
 PROPS["C09"] = {
     "level": "exploration",
     "technique": "stateful property-based testing (rapidcheck): generated operation sequences on one Encoder against a counter/identity model",
-    "rule": "cases = sequences of 1..8 (thorough ..14) operations {setDeviceId, setStreamId, restart, encode via the three "
-            "overloads, encode 20000..33000 one-byte packets with max=25}; non-trivial when the 16-bit counter wraps, or an id "
+    "rule": "cases = sequences of 1..8 (thorough ..14) operations {setDeviceId, setStreamId (a third of them re-apply the value "
+            "already configured), restart, encode via the three overloads, encode 20000..33000 one-byte packets with max=25}; non-trivial when the 16-bit counter wraps, or an id "
             "change/restart after emitted frames is followed by another encode; distinct = distinct serialized sequences",
     "assumptions": COMMON_ASSUMPTIONS,
     "level_text": "Model-based search over operation histories: every emitted frame header and getSequenceCounter() are compared "
@@ -121,8 +122,9 @@ PROPS["C05"] = {
     "level": "exploration",
     "technique": "model-based property-based testing (rapidcheck): generated multi-endpoint segment scripts and interleavings against a reference reassembler",
     "rule": "cases = 1..4 endpoint scripts (unsegmented frames and messages of 2..12 (thorough ..40) segments of 0..200 (..1500) "
-            "declared bytes, start counters around the 16-bit wrap, optional non-message trailing bytes after a segment) merged by "
-            "a generated schedule; non-trivial when a segmented message is delivered AND the history has a context switch to "
+            "declared bytes, start counters around the 16-bit wrap, optional non-message trailing bytes after a segment; 1/25 of the "
+            "segmented messages have a reassembled total at / just below 65535 or around 2^15, 1/60 consist of 255..700 segments of "
+            "0..2 bytes) merged by a generated schedule; non-trivial when a segmented message is delivered AND the history has a context switch to "
             "another endpoint inside an open message, a counter wrap inside a message, trailing bytes, or a zero-length segment; "
             "distinct = distinct serialized cases",
     "assumptions": COMMON_ASSUMPTIONS + ["expected deliveries are derived twice (from the script and from the byte-level reference "
@@ -362,8 +364,8 @@ PROPS["C13"] = {
 PROPS["C14"] = {
     "level": "exploration",
     "technique": "property-based testing (rapidcheck) + exhaustive shape/relation/operation product: getter snapshots before/after copy, move and assignment, equality laws",
-    "rule": "cases = (domain Packet / ASAM payload / TECMP payload, source and target of every kind incl. the payload-less packet and "
-            "zero-length payloads, target relation independent / copy / copy with another payload type / self, operation copy-construct / "
+    "rule": "cases = (domain Packet / ASAM payload / TECMP payload, source and target of every kind incl. the payload-less packet, "
+            "zero-length payloads, payloads with an invalid type and payloads rejected by validation, target relation independent / copy / copy with another payload type / copy with exactly one header field changed / self, operation copy-construct / "
             "copy-assign / move-construct / move-assign incl. self-assignment and self-move-assignment), followed by mutation of either "
             "side and destruction of the source; non-trivial when the target already held a payload, a length is zero, the source has no "
             "payload, or the pair is equal-looking; distinct = distinct serialized cases",
